@@ -47,6 +47,7 @@ static _Bool row_ok(int li) {
 }
 
 void harness(void) {
+    GHOST_INDICES_ARBITRARY();
     deps_install();
     __CPROVER_assert(polyseed_get_num_langs() == NL, "registry: ten languages");
     for (int i = 0; i < NL; ++i) h_langs[i] = polyseed_get_lang(i);
